@@ -247,6 +247,8 @@ def C12(tier, seed):
                                        name_map={"id": "node", "parent_id": "mother", "time": "frame",
                                                  "pos": ["z", "y", "x"]})),
         ("swapped_axes", dict(ids=[4, 2], columns=ccols, name_map=dict(cnm, pos=["x", "y"]))),
+        # a text-valued custom column (cells over a small vocabulary that contains the empty string)
+        ("text_custom_column", dict(ids=[4, 2], columns=dict(ccols, note="str"), name_map=dict(cnm, note="note"))),
         # row labels of the DataFrame are not 0..n-1 (a sorted / filtered table): pandas aligns on labels
         ("permuted_row_labels+custom", dict(ids=[4, 2, 7], columns=dict(ccols, c="int"), name_map=dict(cnm, c="c"),
                                            index=[2, 0, 1])),
